@@ -216,6 +216,18 @@ CHECKS = {
     {"pkg": "./main", "test": "TestC14", "shards": {"quick": 16, "thorough": 16}},
   ],
  },
+ "C19": {
+  "engine": "E-HIST",
+  "rule": "exhaustive enumeration of generated configuration documents (JSON and YAML) over the stated option space, parsed by the real conf code; effective values compared with a reference implementation of 'inherit if omitted'; differential round trip parse -> json.Marshal -> parse; wiring of tags into the running sender observed on the real clientApp.init; distinct = distinct documents",
+  "level": "Every document of the stated space is parsed by the real code and every effective option is compared with the reference; every document is re-encoded and parsed again.",
+  "note": "Bounds: see coverage.parts[].bound. Options are varied individually against all-absent / all-present contexts, not in the full product.",
+  "technique": "exhaustive enumeration of configurations on the implementation, reference-model and differential oracles",
+  "assumptions": ["explicit numeric zeros are a separate class (the schema has no way to tell them from omitted)"],
+  "parts": [
+    {"pkg": ".", "test": "TestC19", "shards": {"quick": 8, "thorough": 8}},
+    {"pkg": "./main", "test": "TestC19Wiring", "shards": {"quick": 8, "thorough": 8}},
+  ],
+ },
 }
 
 NOT_APPLICABLE = {}
